@@ -350,8 +350,16 @@ func Specialise(fn *ssa.Function, param string, val bool) Cuts {
 	c := Cuts{}
 	for _, b := range fn.Blocks {
 		if iff, ok := lastIf(b); ok {
-			if p, ok := iff.Cond.(*ssa.Parameter); ok && p.Name() == param {
-				if val {
+			cond, v := iff.Cond, val
+			for {
+				if u, ok := cond.(*ssa.UnOp); ok && u.Op == token.NOT {
+					cond, v = u.X, !v
+					continue
+				}
+				break
+			}
+			if p, ok := cond.(*ssa.Parameter); ok && p.Name() == param {
+				if v {
 					c[Edge{b.Index, 1}] = true
 				} else {
 					c[Edge{b.Index, 0}] = true
@@ -1224,3 +1232,38 @@ func IntrinsicNonNil(v ssa.Value) bool {
 }
 
 var sentinelCache = map[*ssa.Global]bool{}
+
+// CountedLoopIndex recognises the index variable of a classic counted loop
+// `for i := 0; i < B; i++`: a phi in a loop header with the edges {0, phi+1} whose header test is
+// `phi < B`. Such an index plays the role of the (rangeindex+1) value of a `range` loop and is
+// rendered and treated the same way.
+func CountedLoopIndex(v ssa.Value) (bound ssa.Value, ok bool) {
+	ph, isPhi := v.(*ssa.Phi)
+	if !isPhi || len(ph.Edges) != 2 {
+		return nil, false
+	}
+	zero, step := false, false
+	for _, e := range ph.Edges {
+		if c, isC := e.(*ssa.Const); isC && c.Value != nil && c.Value.ExactString() == "0" {
+			zero = true
+			continue
+		}
+		if b, isB := e.(*ssa.BinOp); isB && b.Op == token.ADD && b.X == v {
+			if c, isC := b.Y.(*ssa.Const); isC && c.Value != nil && c.Value.ExactString() == "1" {
+				step = true
+			}
+		}
+	}
+	if !zero || !step {
+		return nil, false
+	}
+	iff, isIf := lastIf(ph.Block())
+	if !isIf {
+		return nil, false
+	}
+	bo, isB := iff.Cond.(*ssa.BinOp)
+	if !isB || bo.Op != token.LSS || bo.X != v {
+		return nil, false
+	}
+	return bo.Y, true
+}
